@@ -6,6 +6,7 @@ import (
 	"encoding/hex"
 	"fmt"
 	"math/big"
+	"runtime"
 	"sort"
 	"strings"
 	"sync"
@@ -65,7 +66,7 @@ type c25Harness struct {
 	t       *rapid.T
 	wd      *walletDispatcher
 	probe   *c25Probe
-	scalars [c25Wallets]*big.Int
+	points  [c25Wallets][2]*big.Int // the wallets' public key coordinates
 	keys    [c25Wallets]string
 	current [c25Wallets]*c25Action // model: the action the wallet is busy with
 	all     []*c25Action
@@ -81,7 +82,7 @@ func c25Inconclusive(t *rapid.T, why string) {
 // every action carries its own copy of the wallet (fresh big.Ints, fresh
 // operator slice): the wallet's identity is its public key, not an object.
 func (h *c25Harness) newAction(wi int, typ WalletActionType, outcome error) *c25Action {
-	x, y := tecdsa.Curve.ScalarBaseMult(h.scalars[wi].Bytes())
+	x, y := new(big.Int).Set(h.points[wi][0]), new(big.Int).Set(h.points[wi][1])
 	a := &c25Action{
 		id: len(h.all), wi: wi, typ: typ, outcome: outcome, probe: h.probe,
 		w: wallet{
@@ -185,7 +186,11 @@ func (h *c25Harness) complete(wi int) {
 	// after execute() returns, in the dispatcher's goroutine. Only liveness
 	// within a generous bound is observable; a bound hit is inconclusive.
 	key := h.keys[wi]
-	if !verifkit.Eventually(30*time.Second, func() bool { _, busy := h.snapshot()[key]; return !busy }) {
+	released := func() bool { _, busy := h.snapshot()[key]; return !busy }
+	for i := 0; i < 500 && !released(); i++ {
+		runtime.Gosched() // usually a matter of microseconds: do not sleep for it
+	}
+	if !verifkit.Eventually(30*time.Second, released) {
 		h.releaseAll()
 		c25Inconclusive(h.t, fmt.Sprintf("wallet %d still registered as busy 30s after its action ended", wi))
 	}
@@ -251,8 +256,8 @@ func TestVerif_C25_OneActionPerWallet(t *testing.T) {
 		h := &c25Harness{t: t, wd: newWalletDispatcher(), probe: &c25Probe{}}
 		base := rapid.Int64Range(2, 1<<40).Draw(t, "walletBase")
 		for wi := 0; wi < c25Wallets; wi++ {
-			h.scalars[wi] = big.NewInt(base + int64(wi))
-			x, y := tecdsa.Curve.ScalarBaseMult(h.scalars[wi].Bytes())
+			x, y := tecdsa.Curve.ScalarBaseMult(big.NewInt(base + int64(wi)).Bytes())
+			h.points[wi] = [2]*big.Int{x, y}
 			h.keys[wi] = hex.EncodeToString(elliptic.Marshal(tecdsa.Curve, x, y))
 		}
 		defer h.releaseAll()
